@@ -296,7 +296,7 @@ pub fn strategy() -> impl Strategy<Value = Case> {
 }
 
 pub fn subchecks(tier: Tier) -> Vec<SubCheck> {
-    let cases = tier.pick(100_000, 3_000_000);
+    let cases = tier.pick(1_000_000, 12_000_000);
     vec![generated(
         "parse_vs_grammar",
         "texts: grammar-derived around the capacities, mutated, noise; x 6 types x (from_bytes, from_bytes_with_last_index with 3 index presets, str::parse); non-trivial = grammar-valid text with a block hash length within 3 of a capacity or raw > capacity >= collapsed, or a reject whose first defect lies past the block size; distinct by text",
